@@ -527,7 +527,7 @@ theorem C07_complement (n : Nat) (ds : List (List Nat)) :
     ∧ (complementDofs n ds).Pairwise (· < ·) := by
   refine ⟨?_, pairwise_filter_range _ _⟩
   intro x
-  simp only [complementDofs, mem_complementRange, List.mem_flatten, not_exists, not_and]
+  simp only [complementDofs, mem_complementRange_dof, List.mem_flatten, not_exists, not_and]
 
 /-- the complement and the (range-restricted) given DOFs partition `0 … N-1` -/
 theorem C07_complement_partition (n : Nat) (ds : List (List Nat)) (x : Nat) (hx : x < n) :
@@ -728,7 +728,7 @@ theorem C07_drop (c : DofCounts) (tp : Topo) (dn names : List String) (v : View)
 theorem interRows_all (dn names : List String) (skip : Bool) (n off : Nat) :
     interRows (rowsByName dn [] true n off) (rowsByName dn names skip n off)
       = rowsByName dn names skip n off := by
-  apply sorted_ext _ _ (pairwise_interRows _ (pairwise_rowsByName _ _ _ _ _))
+  apply sorted_ext_nat _ _ (pairwise_interRows _ (pairwise_rowsByName _ _ _ _ _))
     (pairwise_rowsByName _ _ _ _ _)
   intro x
   rw [mem_interRows, mem_rowsByName, mem_rowsByName]
@@ -810,11 +810,11 @@ theorem composite_block (cs : List ElemNames) (sel : ElemNames → List String)
   have hmem : cs[i] ∈ cs := List.getElem_mem hi
   have hj' : j < (sel cs[i]).length := by rw [hlen _ hmem]; exact hj
   have hpre : ((cs.take i).map (fun e => (sel e).length)).sum = ((cs.take i).map cnt).sum :=
-    sum_map_congr _ _ _ (fun e he => hlen e (List.mem_of_mem_take he))
+    sum_map_congr_dof _ _ _ (fun e he => hlen e (List.mem_of_mem_take he))
   have htot : (kindNames sel cs).length = (cs.map cnt).sum := by
     unfold kindNames
     rw [length_kindNamesFrom]
-    exact sum_map_congr _ _ _ hlen
+    exact sum_map_congr_dof _ _ _ hlen
   have hlt : ((cs.take i).map cnt).sum + j < (kindNames sel cs).length := by
     rw [htot]; exact sum_take_add_lt cnt cs i j hi hj
   unfold rowName
@@ -852,13 +852,13 @@ theorem C07_composite_names (cs : List ElemNames) (hwf : ∀ e ∈ cs, WF e) (i 
             (cs[i].counts.nodal + cs[i].counts.facet + cs[i].counts.edge) j)) := by
   have lenN : (kindNames ElemNames.nodalNames cs).length = (sumCounts cs).nodal := by
     unfold kindNames; rw [length_kindNamesFrom]
-    exact sum_map_congr _ _ _ (fun e he => (wf_lengths e (hwf e he)).1)
+    exact sum_map_congr_dof _ _ _ (fun e he => (wf_lengths e (hwf e he)).1)
   have lenF : (kindNames ElemNames.facetNames cs).length = (sumCounts cs).facet := by
     unfold kindNames; rw [length_kindNamesFrom]
-    exact sum_map_congr _ _ _ (fun e he => (wf_lengths e (hwf e he)).2.1)
+    exact sum_map_congr_dof _ _ _ (fun e he => (wf_lengths e (hwf e he)).2.1)
   have lenE : (kindNames ElemNames.edgeNames cs).length = (sumCounts cs).edge := by
     unfold kindNames; rw [length_kindNamesFrom]
-    exact sum_map_congr _ _ _ (fun e he => (wf_lengths e (hwf e he)).2.2.1)
+    exact sum_map_congr_dof _ _ _ (fun e he => (wf_lengths e (hwf e he)).2.2.1)
   refine ⟨?_, ?_, ?_, ?_⟩
   · intro hj
     have := composite_block cs ElemNames.nodalNames (·.counts.nodal) (fun _ => 0)
@@ -911,10 +911,10 @@ theorem C07_composite_names (cs : List ElemNames) (hwf : ∀ e ∈ cs, WF e) (i 
 theorem C07_composite_wf (cs : List ElemNames) (hwf : ∀ e ∈ cs, WF e) : WF (compositeElem cs) := by
   unfold WF compositeElem compositeNames kindNames
   simp only [List.length_append, length_kindNamesFrom]
-  rw [sum_map_congr _ _ cs (fun e he => (wf_lengths e (hwf e he)).1),
-    sum_map_congr _ _ cs (fun e he => (wf_lengths e (hwf e he)).2.1),
-    sum_map_congr _ _ cs (fun e he => (wf_lengths e (hwf e he)).2.2.1),
-    sum_map_congr _ _ cs (fun e he => (wf_lengths e (hwf e he)).2.2.2.1)]
+  rw [sum_map_congr_dof _ _ cs (fun e he => (wf_lengths e (hwf e he)).1),
+    sum_map_congr_dof _ _ cs (fun e he => (wf_lengths e (hwf e he)).2.1),
+    sum_map_congr_dof _ _ cs (fun e he => (wf_lengths e (hwf e he)).2.2.1),
+    sum_map_congr_dof _ _ cs (fun e he => (wf_lengths e (hwf e he)).2.2.2.1)]
   rfl
 
 /-- **names of `ElementVector`**: every count is multiplied by `dim`, hence every offset too; row
